@@ -5,6 +5,7 @@ import (
 	"go/ast"
 	"go/token"
 	"go/types"
+	"sort"
 	"strings"
 )
 
@@ -159,7 +160,7 @@ func memIssues(rs *Resid, fn *ast.FuncDecl) []sideIssue {
 			return true
 		}
 		if cl, ok := as.Rhs[0].(*ast.CompositeLit); ok {
-			if els, ok := identNames(cl.Elts); ok && eqStrings(els, binders) {
+			if els, ok := identNames(litValues(cl)); ok && eqStrings(els, binders) {
 				key = canon(as.Lhs[0])
 			}
 		}
@@ -314,7 +315,7 @@ func memIssues(rs *Resid, fn *ast.FuncDecl) []sideIssue {
 				if canon(c.Args[0]) != canon(ix) {
 					iss(as, "stale-bucket", "extends %s, a snapshot of the bucket taken before f ran, instead of the current %s: entries added while f was running (re-entrant or recursive use) are lost", rs.src(c.Args[0]), rs.src(ix))
 				}
-				if cl, ok := c.Args[1].(*ast.CompositeLit); !ok || len(cl.Elts) == 0 || canon(cl.Elts[0]) != key {
+				if cl, ok := c.Args[1].(*ast.CompositeLit); !ok || len(cl.Elts) == 0 || canon(litValues(cl)[0]) != key {
 					iss(as, "store-entry-key", "the stored entry does not start with the argument key %s", key)
 				}
 			}
@@ -322,6 +323,49 @@ func memIssues(rs *Resid, fn *ast.FuncDecl) []sideIssue {
 	}
 	if !stored {
 		iss(callStmt, "not-stored", "the results of f are not stored in the table before returning: f is evaluated again for the same arguments")
+	}
+	return out
+}
+
+// litValues: the element values of a struct literal in field order. The generator declares these struct types itself with
+// fields named <Word><index> (Param0, Param1, ...; Res0, ...) or in/out, in that order: a literal with field names lists
+// the same values, sorted by field name (numeric suffix first).
+func litValues(cl *ast.CompositeLit) []ast.Expr {
+	type kv struct {
+		name string
+		num  int
+		val  ast.Expr
+	}
+	var kvs []kv
+	for _, e := range cl.Elts {
+		x, ok := e.(*ast.KeyValueExpr)
+		if !ok {
+			return cl.Elts
+		}
+		id, ok := x.Key.(*ast.Ident)
+		if !ok {
+			return cl.Elts
+		}
+		name, num := id.Name, -1
+		i := len(name)
+		for i > 0 && name[i-1] >= '0' && name[i-1] <= '9' {
+			i--
+		}
+		if i < len(name) {
+			fmt.Sscanf(name[i:], "%d", &num)
+			name = name[:i]
+		}
+		kvs = append(kvs, kv{name, num, x.Value})
+	}
+	sort.SliceStable(kvs, func(i, j int) bool {
+		if kvs[i].name != kvs[j].name {
+			return kvs[i].name < kvs[j].name
+		}
+		return kvs[i].num < kvs[j].num
+	})
+	var out []ast.Expr
+	for _, k := range kvs {
+		out = append(out, k.val)
 	}
 	return out
 }
